@@ -390,6 +390,7 @@ func Run(c *run.Ctx) {
 	phase("layout", func() { layoutCases(c) })
 	phase("conc", func() { concurrent(c, forKeys, c.N(320, 4000)) })
 	phase("live", func() { live(c) })
+	phase("clock", func() { clockValues(c) })
 	phase("cli", func() { cliCases(c) })
 	phase("cliflags", func() { cliFlagCases(c) })
 	if n := atomic.LoadInt64(&nJudged); n > 200 && atomic.LoadInt64(&nAbstain)*5 > n {
@@ -416,6 +417,9 @@ func runCase(c *run.Ctx, cs *Case) bool {
 		return runCLI(c, cs)
 	case "cliflags":
 		return runCLIFlags(c, cs)
+	case "clock":
+		clockValues(c)
+		return true
 	case "pin":
 		return runPin(c, cs)
 	}
